@@ -38,17 +38,22 @@ func (s Set) Equal(t Term) bool {
 		return false
 	}
 
-	cmap := make(map[Term]struct{}, len(c))
-	for _, v := range c {
-		cmap[v] = struct{}{}
-	}
-
 	for _, id := range s {
-		if _, ok := cmap[id]; !ok {
+		if !c.has(id) {
 			return false
 		}
 	}
 	return true
+}
+
+// has reports whether the set contains an element equal to t.
+func (s Set) has(t Term) bool {
+	for _, v := range s {
+		if v.Equal(t) {
+			return true
+		}
+	}
+	return false
 }
 func (s Set) String() string {
 	eltStr := make([]string, 0, len(s))
@@ -59,31 +64,21 @@ func (s Set) String() string {
 	return fmt.Sprintf("[%s]", strings.Join(eltStr, ", "))
 }
 func (s Set) Intersect(t Set) Set {
-	other := make(map[Term]struct{}, len(t))
-	for _, v := range t {
-		other[v] = struct{}{}
-	}
-
 	result := Set{}
 
 	for _, id := range s {
-		if _, ok := other[id]; ok {
+		if t.has(id) {
 			result = append(result, id)
 		}
 	}
 	return result
 }
 func (s Set) Union(t Set) Set {
-	this := make(map[Term]struct{}, len(s))
-	for _, v := range s {
-		this[v] = struct{}{}
-	}
-
 	result := Set{}
 	result = append(result, s...)
 
 	for _, id := range t {
-		if _, ok := this[id]; !ok {
+		if !s.has(id) {
 			result = append(result, id)
 		}
 	}
